@@ -332,6 +332,37 @@ def coq_crosscheck(cases, expected, tag, budget=40000):
     return len(sel_c), bad
 
 
+def c18_static():
+    """Static obligations of C18 on the code itself: no unsafe code, no interior mutability in the library,
+    and the crate compiles with unsafe_code forbidden.  Returns a list of failure descriptions."""
+    bad = []
+    toks = re.compile(r"\b(unsafe|UnsafeCell|Cell|RefCell|Mutex|RwLock|Atomic\w*|OnceCell|OnceLock|LazyLock|thread_local|static\s+mut|lazy_static)\b")
+    srcdir = os.path.join(REPO, "src")
+    for d, _, fs in os.walk(srcdir):
+        if os.path.join(srcdir, "bin") in d:
+            continue
+        for f in fs:
+            if not f.endswith(".rs"):
+                continue
+            p = os.path.join(d, f)
+            for ln, line in enumerate(open(p, errors="replace"), 1):
+                code = line.split("//")[0]
+                m = toks.search(code)
+                if m:
+                    bad.append("%s:%d: `%s` in library code: %s" % (os.path.relpath(p, REPO), ln, m.group(1), line.strip()[:120]))
+    env = dict(ENV)
+    env["CARGO_TARGET_DIR"] = os.path.join(CACHE, "target-audit")
+    with Lock("cargo-audit"):
+        rc, log = run(["timeout", "900", "cargo", "rustc", "--offline", "--quiet", "-p", "chainfile", "--lib", "--", "-F", "unsafe_code"],
+                      cwd=HARNESS_SRC, env=env, timeout=1000)
+    if rc != 0:
+        bad.append("the crate does not compile with unsafe_code forbidden:\n" + log[-3000:])
+    return bad
+
+
+PRE = {"c18_static": c18_static}
+
+
 # ------------------------------------------------------------------------------------------------
 # findings, evidence
 # ------------------------------------------------------------------------------------------------
